@@ -50,6 +50,9 @@ ASSUMPTIONS = [
     'class and at most 3 in all (thorough: 0-2 per class), every resolving population, every route; the phrases family enumerates every non-empty phrase over '
     'PHRASE_ALPHABET up to length 2 (thorough: 3) on one linked population (phrase on the referring end / the referred end / '
     'both, by position), one route per serialisation function',
+    'nullkey family: every population of the link family in which an instance of a referred-to class is referred to by nobody and an '
+    'instance of the referring class refers to nothing, with that referred-to instance holding the null value of its (single, string '
+    'or unique_id, non-referential) key: the empty string, an unset unique_id, the unique_id 0; the two must not come back linked',
     'late family: the population is created first, with raw values (omitted = the default of the type stays behind, or the key of '
     'an existing instance) in the attributes that become referential, THEN the associations are defined and formalized; the '
     'instances are connected by those raw values through Association.batch_relate (before formalize), through the loader\'s '
@@ -548,6 +551,48 @@ def links_family(tier):
                                rows=rows, links=links, schema=schema.name)
 
 
+def nullkey_family(tier):
+    """(round 11, C01-21) link populations in which a referred-to instance that nobody refers to holds the NULL value of its key's
+    type (empty string; unique_id unset or 0) while an instance of the referring class refers to nothing: the two must not
+    come back linked.  Derived from the link family: every population with such a pair, one variant per null form."""
+    for case in links_family(tier):
+        if case['schema'].startswith(('phrase_', 'card_')) and tier == 'quick' and not case['schema'].endswith(('_0', '_1', '_6', '_11')):
+            continue
+        types = dict((kind, dict((a, t.lower()) for a, t in attrs)) for kind, attrs in case['classes'])
+        refs = {}
+        for a in case['assocs']:
+            refs.setdefault(a[1], set()).update(a[2])
+        done = set()
+        for a in case['assocs']:
+            rel, src, skeys, tgt, tkeys = a[0], a[1], a[2], a[6], a[7]
+            if len(tkeys) != 1 or types[tgt][tkeys[0]] not in ('string', 'unique_id') or tkeys[0] in refs.get(tgt, ()):
+                continue
+            key = tkeys[0]
+            # the same attribute may be the key of other associations too: nobody may refer to the instance through any of them
+            rels = [b for b in case['assocs'] if b[6] == tgt and key in b[7]]
+            linked_to = set(y for x, y, r, ph in case['links'] if any(b[0] == r for b in rels))
+            srcs = [i for i, (k, _) in enumerate(case['rows']) if k == src]
+            unlinked = [i for i in srcs if not any(x == i and r == rel for x, y, r, ph in case['links'])]
+            if not unlinked:
+                continue
+            for t, (k, vals) in enumerate(case['rows']):
+                if k != tgt or t in linked_to or (t, key) in done:
+                    continue
+                if src == tgt and unlinked == [t]:
+                    continue
+                done.add((t, key))
+                forms = [('value', '')] if types[tgt][key] == 'string' else [('unset', None), ('value', 0)]
+                for how, v in forms:
+                    rows = [(kk, dict(vv)) for kk, vv in case['rows']]
+                    c = dict(case, rows=rows, nullkey=[t, key, how])
+                    if how == 'value':
+                        rows[t][1][key] = v
+                    else:
+                        rows[t][1].pop(key, None)
+                        c['unset'] = [(t, key)]
+                    yield c
+
+
 def keyword_family():
     for w in RESERVED:
         other = 'Other'
@@ -749,7 +794,8 @@ def jsonable(case):
 def run(ctx):
     fams = [('values', list(values_family(ctx.tier))), ('links', list(links_family(ctx.tier))),
             ('keywords', list(keyword_family())), ('order', list(order_family())), ('history', list(history_family(ctx.tier))),
-            ('late', list(late_family(ctx.tier))), ('phrases', list(phrases_family(ctx.tier))), ('bulk', list(bulk_family(ctx.tier)))]
+            ('late', list(late_family(ctx.tier))), ('phrases', list(phrases_family(ctx.tier))), ('bulk', list(bulk_family(ctx.tier))),
+            ('nullkey', list(nullkey_family(ctx.tier)))]
     tasks = []
     for name, cases in fams:
         cases = [jsonable(c) for c in cases]
@@ -768,6 +814,7 @@ def run(ctx):
     ctx.require(ctx.n('family_late') >= 1000, 'too few populations created before their associations (%d)' % ctx.n('family_late'))
     ctx.require(ctx.n('family_phrases') >= 150, 'too few enumerated phrases (%d)' % ctx.n('family_phrases'))
     ctx.require(sum(1 for c in fams[1][1] if c['schema'].startswith('phrase_')) >= 200, 'too few populations under phrased associations')
+    ctx.require(ctx.n('family_nullkey') >= 200, 'too few populations with a null-keyed instance beside an instance that refers to nothing (%d)' % ctx.n('family_nullkey'))
     ctx.require(ctx.n('family_bulk') >= 8, 'too few bulk populations (%d)' % ctx.n('family_bulk'))
     ctx.require(ctx.n('family_history') >= 300, 'too few histories (%d)' % ctx.n('family_history'))
 
